@@ -56,10 +56,11 @@ type Ev8 struct {
 	Acc      []int  `json:"acc"`
 	Chg      []int  `json:"chg"`
 	Pan      []int  `json:"pan"`
+	Held     []int  `json:"held"` // the MAC slice returned by the last successful Mac call (since inverted by the harness), re-read after this call
 }
 
 func blank(op string) Ev8 {
-	return Ev8{Op: op, Key: []int{}, Cnt: []int{}, Before: []int{}, After: []int{}, KeyAfter: []int{}, Mac: []int{}, Acc: []int{}, Chg: []int{}, Pan: []int{}}
+	return Ev8{Op: op, Key: []int{}, Cnt: []int{}, Before: []int{}, After: []int{}, KeyAfter: []int{}, Mac: []int{}, Acc: []int{}, Chg: []int{}, Pan: []int{}, Held: []int{}}
 }
 
 type world struct {
@@ -69,6 +70,7 @@ type world struct {
 	cnts  map[int][]byte
 	bases map[int][]byte
 	cells map[int][]byte // the real payload buffers (nil slice = nil payload)
+	held  []byte         // the last returned MAC slice: the caller owns it, has written into it, and keeps it
 }
 
 func newWorld(rng *rand.Rand, w *ev.Writer) *world {
@@ -97,6 +99,7 @@ func (s *world) material(m map[int][]byte, id, n int) []byte {
 
 func (s *world) reset() {
 	s.cells = map[int][]byte{}
+	s.held = nil
 	s.w.Emit(blank("TraceReset"))
 }
 
@@ -156,6 +159,14 @@ func (s *world) do(o HOp) {
 	e.KeyAfter = ev.Ints(key[:])
 	e.MacNil = mac == nil
 	e.Mac = ev.Ints(mac)
+	e.Held = ev.Ints(s.held) // what the previously returned MAC slice holds after this call
+	if o.Op == "Mac" {
+		// a result is a value the caller owns: write into it (invert every octet) and keep hold of it
+		for i := range mac {
+			mac[i] = ^mac[i]
+		}
+		s.held = mac
+	}
 	if pi != nil {
 		e.Panic, e.Pfn, e.Plib = true, pi.Fn, pi.Lib
 	} else {
@@ -203,7 +214,11 @@ func (s *world) cube(call string, alg int) {
 				if call == "Encrypt" {
 					err = security.NASEncrypt(uint8(alg), key, count, uint8(b), uint8(d), buf)
 				} else {
-					_, err = security.NASMacCalculate(uint8(alg), key, count, uint8(b), uint8(d), buf)
+					var m []byte
+					m, err = security.NASMacCalculate(uint8(alg), key, count, uint8(b), uint8(d), buf)
+					for i := range m { // the caller owns the result
+						m[i] = ^m[i]
+					}
 				}
 			})
 			code := b*256 + d
